@@ -8,7 +8,10 @@ const res = [];
 isa.instructions.forEach(i => {
   const fields = {};
   for (const k of Object.keys(i.fields || {})) fields[k] = (i.fields[k].values || []).map(v => ({ index: v.index, from: v.from, size: v.size }));
+  const tk = {};
+  for (const k of Object.keys(i)) if (/^t[a-z]?(\.t[a-z]?)*$/.test(k) && typeof i[k] === "string") tk[k] = i[k];
   res.push({
+    tk: tk,
     name: i.name, op: i.opcodeString, opv: i.opcodeValue, alias: i.aliasOf, t: i.t || "",
     fields: fields,
     ops: i.operands.map(o => { const r = { s: o.toString() }; for (const k of Object.keys(o)) { const v = o[k]; if (typeof v !== "object" || v === null) r[k] = v; } return r; })
